@@ -652,6 +652,13 @@ handle_new_connection(struct qb_ipcs_service *s,
 	const char suffix[] = "/qb";
 	int desc_len;
 
+	/*
+	 * qb_ipcc_connect() never asks for less than this; a peer that does
+	 * would get buffers too small even for a message header.
+	 */
+	max_buffer_size = QB_MAX(max_buffer_size,
+				 sizeof(struct qb_ipc_connection_response));
+
 	c = qb_ipcs_connection_alloc(s);
 	if (c == NULL) {
 		qb_ipcc_us_sock_close(sock);
